@@ -25,8 +25,10 @@ Definition resolve_field (md : mdesc) (st : pstep) : option fdesc :=
 Definition key_of_step (kk : Z) (st : pstep) : option mkey :=
   match st with
   | PStrKey b => if kk =? 9 then Some (KStr b) else None
-  | PIntKey k => if (kk =? 9) || negb (is_numeric kk) then None
-                 else Some (KInt kk (scalar_of_u kk (k mod 2 ^ 64)))
+  | PIntKey k => if (kk =? 9) || (kk =? 8) || negb (is_numeric kk) then None     (* bool keys cannot be addressed by the API *)
+                 else
+                   let u := k mod 2 ^ 64 in
+                   Some (KInt kk (if kk =? 17 then to_s 32 u else if kk =? 18 then to_s 64 u else scalar_of_u kk u))
   | _ => None
   end.
 
